@@ -128,6 +128,7 @@ pub fn atoms(ds: &str, de: &str) -> Vec<String> {
         format!("{ds}/z{de}"),
         "x".to_string(),
         format!("{ds}a q='1'{de}"),
+        format!("{ds}/b c='x'{de}"),
     ]
 }
 
